@@ -546,6 +546,95 @@ Qed.
 
 (** the code before the fix ([futures::select!], modelled by [biased = false]) violates it:
     abort, then the future completes, then the task is polled and the oracle picks the future *)
+(** * an action created with an initial value (server actions restored from the URL)
+    nothing in [step] reads [value]: the restored action runs exactly like a fresh one, and its
+    value is the restored one until the first write (completion or clear) *)
+Definition with_value (v : option Z) (s : astate) : astate :=
+  mkA (in_flight s) (input s) v (version s) (dispatched s) (tasks s) (wlog s).
+Definition restored_st (v0 : option Z) (s : astate) : astate :=
+  match wlog s with [] => with_value v0 s | _ => s end.
+
+Lemma restored_ready v0 s : ready (restored_st v0 s) = ready s.
+Proof. unfold restored_st. destruct (wlog s); reflexivity. Qed.
+
+Lemma restored_poll v0 b k c s : poll b k c (restored_st v0 s) = restored_st v0 (poll b k c s).
+Proof.
+  unfold restored_st. destruct (wlog s) eqn:Hw; [|].
+  - unfold poll, with_value. cbn [tasks].
+    destruct (nth_error (tasks s) k) as [t|]; [|cbn; rewrite Hw; reflexivity].
+    destruct (t_done t || negb (t_woken t)); [cbn; rewrite Hw; reflexivity|].
+    destruct (match t_result t with None => abort_ready t | Some _ => abort_ready t && (b || c) end).
+    + unfold finish_input. cbn. destruct (pred (in_flight s) =? 0); cbn; rewrite Hw; reflexivity.
+    + destruct (t_result t) as [r|].
+      * cbn [dispatched]. destruct (dispatched s <=? t_curver t).
+        -- unfold finish_input. cbn. destruct (pred (in_flight s) =? 0); reflexivity.
+        -- unfold finish_input. cbn. destruct (pred (in_flight s) =? 0); cbn; rewrite Hw; reflexivity.
+      * unfold set_tasks. cbn. rewrite Hw. reflexivity.
+  - assert (Hne : wlog (poll b k c s) <> []).
+    { unfold poll. destruct (nth_error (tasks s) k) as [t|]; [|congruence].
+      destruct (t_done t || negb (t_woken t)); [congruence|].
+      destruct (match t_result t with None => abort_ready t | Some _ => abort_ready t && (b || c) end).
+      - rewrite wlog_finish_input. cbn. congruence.
+      - destruct (t_result t) as [r|]; [|cbn; congruence].
+        rewrite wlog_finish_input. destruct (dispatched s <=? t_curver t); cbn; congruence. }
+    destruct (wlog (poll b k c s)); [congruence|reflexivity].
+Qed.
+
+Lemma restored_run_all v0 b fuel : forall picks c s,
+  run_all b fuel picks c (restored_st v0 s) = restored_st v0 (run_all b fuel picks c s).
+Proof.
+  induction fuel as [|f IH]; intros picks c s; cbn [run_all]; [reflexivity|].
+  rewrite restored_ready. destruct (ready s) as [|x r]; [reflexivity|].
+  rewrite restored_poll. apply IH.
+Qed.
+
+Lemma restored_tasks v0 s : tasks (restored_st v0 s) = tasks s.
+Proof. unfold restored_st. destruct (wlog s); reflexivity. Qed.
+
+Lemma restored_step v0 b s e : step b (restored_st v0 s) e = restored_st v0 (step b s e).
+Proof.
+  destruct e; cbn [step].
+  - unfold restored_st, do_dispatch. destruct (wlog s) eqn:Hw; cbn; rewrite Hw; reflexivity.
+  - unfold restored_st, set_tasks. destruct (wlog s) eqn:Hw; cbn; rewrite Hw; reflexivity.
+  - unfold restored_st, set_tasks. destruct (wlog s) eqn:Hw; cbn; rewrite Hw; reflexivity.
+  - unfold restored_st, set_tasks. destruct (wlog s) eqn:Hw; cbn; rewrite Hw; reflexivity.
+  - apply restored_poll.
+  - unfold restored_st, with_value. cbn. destruct (wlog s) eqn:Hw; cbn; rewrite ?Hw; reflexivity.
+  - rewrite restored_tasks. apply restored_run_all.
+Qed.
+
+Lemma restored_fold v0 b evs : forall s,
+  fold_left (step b) evs (restored_st v0 s) = restored_st v0 (fold_left (step b) evs s).
+Proof. induction evs as [|e evs IH]; intros s; cbn; [reflexivity|]. rewrite restored_step. apply IH. Qed.
+
+Lemma run_from_restored v0 b evs : run_from v0 b evs = restored_st v0 (run b evs).
+Proof. unfold run_from, run. rewrite <- restored_fold. reflexivity. Qed.
+
+Theorem restored_value_until_first_write : forall v0 evs,
+  let s := run_from v0 true evs in
+  let s' := run true evs in
+  in_flight s = in_flight s' /\ input s = input s' /\ version s = version s' /\
+  tasks s = tasks s' /\ wlog s = wlog s' /\
+  value s = match wlog s' with [] => v0 | l => last_value l end.
+Proof.
+  intros v0 evs s s'. unfold s. rewrite run_from_restored. fold s'.
+  pose proof (value_is_last_completed evs) as Hv. cbv zeta in Hv. fold s' in Hv.
+  unfold restored_st. destruct (wlog s') eqn:Hw.
+  - cbn. rewrite Hw. repeat split; reflexivity.
+  - rewrite Hw. repeat split; try reflexivity. exact Hv.
+Qed.
+
+(** a server action restored with error -5 reports it until a dispatch completes; version,
+    pending and input are those of a fresh action *)
+Example restored_example :
+  let h1 := [Dispatch 3; Poll 0 false] in
+  let h2 := h1 ++ [Complete 0 9; Poll 0 false] in
+  value (run_from (Some (-5)%Z) true []) = Some (-5)%Z /\
+  value (run_from (Some (-5)%Z) true h1) = Some (-5)%Z /\ pending (run_from (Some (-5)%Z) true h1) = true /\
+  value (run_from (Some (-5)%Z) true h2) = Some 9%Z /\ version (run_from (Some (-5)%Z) true h2) = 1 /\
+  value (run_from (Some (-5)%Z) true [Clear]) = None.
+Proof. vm_compute. repeat split. Qed.
+
 Definition prefix_witness1 : list event := [Dispatch 7; Poll 0 false; Abort 0].
 Definition prefix_witness2 : list event := [Complete 0 42; Poll 0 false].
 
